@@ -58,7 +58,7 @@ def one(cfg):
     else:
         A = 0.4
     opts = tdgl.SolverOptions(solve_time=cfg.get("solve_time", 0.2), dt_init=2e-3, dt_max=2e-2, adaptive=cfg.get("adaptive", True),
-                              save_every=10, progress_interval=10 ** 9, pause_on_interrupt=False, output_file=path,
+                              save_every=10, progress_interval=cfg.get("progress_interval", 10 ** 9), pause_on_interrupt=False, output_file=path,
                               include_screening=cfg.get("screening", False), screening_tolerance=1e-2)
     if cfg.get("four_terminals"):
         # time-dependent, numpy-scalar, non-representable currents through four terminals: any dependence of the order in
